@@ -48,6 +48,7 @@ KNOWN = [
 
 # subject prefix (after 'fix: ') -> (properties, rule, what failed)
 FIXED = [
+    ("pruning bounds were inferred from soft requirements, termination conditions and records", ["C08"], "C08.sources", "`require[0.5] C`, `terminate when C`, `terminate simulation when C` and `record C` gave the objects distance / relative-heading relations as if C held in every scene, so pruning removed scenes the program allows (F57; noticed by an independent agent while seeding changes)"),
     ("a syntax error spanning a blank line inside brackets escaped as KeyError", ["C10"], "C10.partial", "`x = (1\\n\\n 2)` raised KeyError from the tokenizer's get_lines while the error text was assembled (F53; reported by an independent agent)"),
     ("invalid number literals and mixed bytes/str literals escaped as raw Python errors", ["C10"], "C10.partial", "`x = 01` escaped as a raw SyntaxError and `b\"a\" \"b\"` as TypeError: ast.literal_eval of token text was unprotected (F54; reported by an independent agent)"),
     ("a temporal operator nested inside an ordinary expression crashed the compiler", ["C10"], "C10.partial", "`require x if y else (always z)` failed with AssertionError 'needs visitor in compiler' (F55; reported by an independent agent)"),
